@@ -229,10 +229,20 @@ def rule_blank_buffer(ctx):
         r.check(("options::indent_single_newlines()", True) in cs, "%s/SetNlColumn-only-on-request" % f.qn.split("::")[-1], db.loc(f, n),
                 "the column to which blank lines are padded is set outside `options::indent_single_newlines()` (%s): blank lines come out with "
                 "trailing blanks although nobody asked for them" % cs[-3:])
+    # a tab is written at once (only blanks are buffered and dropped at a line break): a literal tab written by output_text()
+    # itself must not be the last thing on its line
+    o = db.fn("output_text", file=OUT)
+    tabs = [n for n in o.all_nodes() if n["k"] == "call" and n.get("c") == "add_char" and n.get("a") and (o.nodes.get(n["a"][0]) or {}).get("k") == "chr" and o.nodes[n["a"][0]]["v"] == 9]
+    r.require(len(tabs) >= 1, "output_text: no literal add_char(TAB) found (force_tab_after_define)")
+    for n in tabs:
+        r.seen()
+        cs = _conds(o, n)
+        r.check(("pc->GetNext(ALL)->IsNewline()", False) in cs or ("!pc->GetNext(ALL)->IsNewline()", True) in cs or ("pc->GetNext()->IsNewline()", False) in cs,
+                "output_text/literal-tab-not-at-line-end", db.loc(o, n), "output_text() writes a tab without having excluded that the line ends behind it: %s" % cs[-3:])
     raw = [(f, n) for f in db.funcs.values() if f.file.startswith("src/") for n in f.all_nodes()
            if n["k"] in ("asg", "un") and n.get("a") and expr_str(f, n["a"][0]).endswith("m_nlColumn") and f.qn.split("::")[-1] not in ("SetNlColumn", "Chunk", "Reset", "CopyFrom", "operator=")]
     r.check(not raw, "m_nlColumn/written-only-by-its-setter", db.loc(raw[0][0], raw[0][1]) if raw else "src/chunk.h:1", "m_nlColumn is also written in %s" % sorted(set(f.qn for f, n in raw)))
-    r.floor(5)
+    r.floor(6)
 
 
 def rule_eof(ctx):
